@@ -1,6 +1,13 @@
 package e2
 
 import (
+	"fmt"
+	"os"
+	"path/filepath"
+
+	"verif/internal/chanrewrite"
+	"verif/internal/gorun"
+	"verif/internal/pkit"
 	"verif/internal/progen"
 )
 
@@ -83,4 +90,29 @@ func JoinSR(in chan (<-chan p.Item)) <-chan p.Item {
 	e := &Entry{ID: "conc", TypeStr: "p.Item", Funcs: map[string]string{}, Tags: map[string]string{}, Imports: map[string]bool{}}
 	s.Entries = append(s.Entries, e)
 	return s
+}
+
+// ModelAfterGenerate rewrites the derived concurrency helpers of packages p and p2 onto the model
+// scheduler (packages modelp, modelp2) and adds the scheduler library to the subject module.
+func ModelAfterGenerate(c *pkit.Ctx) func(dir string) error {
+	return func(dir string) error {
+		for _, pkg := range []string{"p", "p2"} {
+			_, model, declined, err := chanrewrite.ModelFor(dir, pkg)
+			if err != nil {
+				return err
+			}
+			if len(declined) > 0 {
+				c.Rep.Class("model-rewrite-declined")
+				return fmt.Errorf("the rewriter declined package %s (%v): only the real-runtime engine ran", pkg, declined)
+			}
+			if err := gorun.WriteFiles(dir, map[string]string{"model" + pkg + "/model.go": model}); err != nil {
+				return err
+			}
+		}
+		b, err := os.ReadFile(filepath.Join(gorun.VerifDir(), "subjectlib", "sched", "sched.go"))
+		if err != nil {
+			return err
+		}
+		return gorun.WriteFiles(dir, map[string]string{"sched/sched.go": string(b)})
+	}
 }
